@@ -243,6 +243,18 @@ func (w *Wallet) handleChainNotifications() {
 func (w *Wallet) connectBlock(dbtx walletdb.ReadWriteTx, b wtxmgr.BlockMeta) error {
 	addrmgrNs := dbtx.ReadWriteBucket(waddrmgrNamespaceKey)
 
+	// A backend may announce a block again that is already part of our
+	// chain, the bitcoind client does so for every block a rescan walks
+	// over. Moving the sync point back to such a block would make us
+	// ignore the disconnect of any block above it, so there is nothing to
+	// do for it.
+	if b.Height < w.Manager.SyncedTo().Height {
+		hash, err := w.Manager.BlockHash(addrmgrNs, b.Height)
+		if err == nil && *hash == b.Hash {
+			return nil
+		}
+	}
+
 	bs := waddrmgr.BlockStamp{
 		Height:    b.Height,
 		Hash:      b.Hash,
